@@ -308,9 +308,52 @@ def _faultable(trace_occ, trace, pre, after=-1):
                 yield k, 'cleanup-unlink', (kind, occ), f
 
 
+OTHER_PATH = S.DIR + '/other-thread.txt'
+OTHER_DATA = b'SAVED BY ANOTHER THREAD'
+
+
+def judge_other_thread(case, r, hooks_act, out, step):
+    """The save made by the other thread (fault-free, new file, default arguments) must be complete."""
+    fs = r.fs
+    sig = dict(phase='concurrent-save')
+    if hooks_act.error is not None:
+        return out.fail('concurrent-save-wrong', step, 'a fault-free save by another thread, run in the middle of this save, '
+                        'raised %r' % (hooks_act.error,), **sig)
+    data = fs.read_path(OTHER_PATH)
+    if data != OTHER_DATA:
+        return out.fail('concurrent-save-wrong', step, 'a save by another thread in the middle of this save left %r at its '
+                        'destination' % (data,), **sig)
+    want = 0o666 & ~case.get('umask', 0o022)
+    if fs.mode_of(OTHER_PATH) != want:
+        return out.fail('concurrent-save-wrong', step, 'a new file saved by another thread in the middle of this save has mode %o, '
+                        'the umask default is %o (umask %o)' % (fs.mode_of(OTHER_PATH), want, case.get('umask', 0o022)), **sig)
+    if fs.lexists(OTHER_PATH + '.part'):
+        return out.fail('concurrent-save-wrong', step, 'the other thread\'s part file is still there', **sig)
+    return None
+
+
 def _run_faulted(case, pre, plan_faults, labels, log, out, second_party=None, sp_key=None):
     hooks = None
-    if second_party:
+    if second_party == 'thread':
+        def hooks(sim):
+            def act():
+                # another thread of this process runs a complete, fault-free save of another file right here
+                if act.fired:
+                    return
+                act.fired = True
+                armed, sim.armed = sim.armed, False
+                try:
+                    with S.fu.atomic_save(OTHER_PATH) as fo:
+                        fo.write(OTHER_DATA)
+                except BaseException as e:          # it is another thread: nothing propagates into this one
+                    act.error = e
+                finally:
+                    sim.armed = armed
+            act.fired = False
+            act.error = None
+            hooks.act = act
+            return {sp_key: act}
+    elif second_party:
         def hooks(sim):
             def act():
                 path = pre.dest if second_party == 'dest' else pre.part
@@ -331,7 +374,10 @@ def _run_faulted(case, pre, plan_faults, labels, log, out, second_party=None, sp
         fired.append((lab, key[1], f))
         out.fault('%s:%s' % (lab, f[0] if f[0] != 'errno' else errno.errorcode.get(f[1], str(f[1]))))
     sp_fired = bool(second_party and hooks.act.fired)
-    if sp_fired:
+    if sp_fired and second_party == 'thread':
+        out.fault('another-thread-saves-mid-save')
+        r.other_thread = hooks.act
+    elif sp_fired:
         out.fault('second-party-creates-' + second_party)
     return r, fired, sp_fired
 
@@ -353,7 +399,13 @@ def run_case(case):
                                      second_party=sp[0] if sp else None,
                                      sp_key=(sp[1], sp[2]) if sp else None)
         out.steps = r.sim.n
-        judge(case, pre, r, fired, out, 0, second_party=sp[0] if (sp and spf) else None)
+        if sp and sp[0] == 'thread':
+            if spf:
+                judge_other_thread(case, r, r.other_thread, out, 0)
+            if out.violation is None:
+                judge(case, pre, r, fired, out, 0)
+        else:
+            judge(case, pre, r, fired, out, 0, second_party=sp[0] if (sp and spf) else None)
         if out.violation is not None:
             out.violation['sig']['faulted'] = bool(case['faults'] or sp)
         out.digest = log.digest()
@@ -407,6 +459,20 @@ def run_case(case):
                     out.extra['found_sp'] = [who, kind, occ]
                     break
             if out.violation is not None:
+                break
+    # another thread of the same process completes a save of its own in the middle of this one (before event k)
+    if out.violation is None and case.get('other_thread'):
+        for k, (kind, occ) in enumerate(base.sim.occ):
+            r, fired, spf = _run_faulted(case, pre, {}, {}, log, out, second_party='thread', sp_key=(kind, occ))
+            fault_runs += 1
+            out.steps += r.sim.n
+            if not spf:
+                continue
+            out.nontrivial.append(core.h64([cfg, 'other-thread', kind, occ]))
+            if judge_other_thread(case, r, r.other_thread, out, k) or judge(case, pre, r, fired, out, k):
+                out.violation['sig']['faulted'] = True
+                out.extra['found_plan'] = []
+                out.extra['found_sp'] = ['thread', kind, occ]
                 break
     # pairs: the second fault is placed in the run that already contains the first
     if out.violation is None and singles:
